@@ -737,3 +737,270 @@ func contains(xs []string, x string) bool {
 	}
 	return false
 }
+
+// ---- R-param-slice / R-closure-shared --------------------------------------------------------
+//
+// R-param-slice: a function must not write into the backing array of a slice it received: index stores into the
+// parameter (or a re-slice of it) and appends to a re-slice `p[:n]` (which reuse the caller's array) are reported.
+// Plain `append(p, x)` whose result is used instead of p is the ordinary Go idiom and is accepted.
+//
+// R-closure-shared: inside a function literal that outlives the call that created it (it is returned or handed to a
+// router/handler), writes to variables captured from the enclosing function - assignment, append to the captured slice
+// or an alias of it, index or map store - are writes to state shared by every invocation (and every request).
+func RunSliceAndClosureWrites(c *Ctx, pkgs []string, allowParam []allowSite) {
+	in := map[string]bool{}
+	for _, p := range pkgs {
+		in[p] = true
+	}
+	allow := map[string]string{}
+	used := map[string]bool{}
+	for _, a := range allowParam {
+		allow[a.fn+"|"+a.expr] = a.why
+	}
+	nFuncs, nLits := 0, 0
+	for _, fi := range c.P.Funcs {
+		if fi.Body == nil || (!in[shortPkg(fi.Pkg.PkgPath)] && !fi.Ctl) {
+			continue
+		}
+		info := fi.Pkg.TypesInfo
+		// --- R-param-slice (declarations only; literals are covered through their own parameters too)
+		if fi.Sig != nil {
+			nFuncs++
+			tainted := map[types.Object]string{} // variable -> "param p" (aliases the caller's array)
+			resliced := map[types.Object]bool{}   // alias created by re-slicing: append reuses the caller's array
+			for i := 0; i < fi.Sig.Params().Len(); i++ {
+				p := fi.Sig.Params().At(i)
+				if _, ok := p.Type().Underlying().(*types.Slice); ok {
+					tainted[p] = p.Name()
+				}
+			}
+			if len(tainted) > 0 {
+				// aliases: x := p / x := p[a:b]
+				for iter := 0; iter < 3; iter++ {
+					ast.Inspect(fi.Body, func(n ast.Node) bool {
+						if lit, ok := n.(*ast.FuncLit); ok && lit != fi.Lit {
+							return false
+						}
+						as, ok := n.(*ast.AssignStmt)
+						if !ok || len(as.Lhs) != len(as.Rhs) {
+							return true
+						}
+						for i, l := range as.Lhs {
+							id, ok := unparen(l).(*ast.Ident)
+							if !ok {
+								continue
+							}
+							o := info.Defs[id]
+							if o == nil {
+								o = info.Uses[id]
+							}
+							if o == nil {
+								continue
+							}
+							switch r := unparen(as.Rhs[i]).(type) {
+							case *ast.Ident:
+								if org, ok := tainted[info.Uses[r]]; ok && info.Uses[r] != o {
+									tainted[o] = org
+									if resliced[info.Uses[r]] {
+										resliced[o] = true
+									}
+								}
+							case *ast.SliceExpr:
+								if rid, ok := unparen(r.X).(*ast.Ident); ok {
+									if org, ok := tainted[info.Uses[rid]]; ok && r.Max == nil {
+										tainted[o] = org
+										resliced[o] = true
+									}
+								}
+							}
+						}
+						return true
+					})
+				}
+				ast.Inspect(fi.Body, func(n ast.Node) bool {
+					if lit, ok := n.(*ast.FuncLit); ok && lit != fi.Lit {
+						return false
+					}
+					as, ok := n.(*ast.AssignStmt)
+					if !ok {
+						return true
+					}
+					for i, l := range as.Lhs {
+						// p[i] = v
+						if ix, ok := unparen(l).(*ast.IndexExpr); ok {
+							if id, ok := unparen(ix.X).(*ast.Ident); ok {
+								if org, ok := tainted[info.Uses[id]]; ok {
+									key := fi.Root().Name + "|" + types.ExprString(ix)
+									why, okAllowed := allow[key]
+									if okAllowed {
+										used[key] = true
+									}
+									c.R.Obl(Obligation{Rule: "E6.R-param-slice", Func: fi.Name, Construct: "store " + types.ExprString(ix), Pos: c.P.Position(ix.Pos()), Discharged: okAllowed, Nontrivial: true, How: []string{why}, Ctl: fi.Ctl})
+									if !okAllowed {
+										c.R.Find(Finding{Rule: "E6.R-param-slice", Func: fi.Name, Construct: "element store into caller's slice " + org, Pos: c.P.Position(ix.Pos()),
+											Msg: fmt.Sprintf("`%s = ...` overwrites an element of the slice parameter %s: the caller's (possibly shared, possibly cached) slice is modified", types.ExprString(ix), org), Ctl: fi.Ctl})
+									}
+								}
+							}
+						}
+						// x = append(x, ...) where x is a re-slice of a parameter
+						if i < len(as.Rhs) && len(as.Lhs) == len(as.Rhs) {
+							if call, ok := unparen(as.Rhs[i]).(*ast.CallExpr); ok && len(call.Args) > 0 {
+								if fid, ok := unparen(call.Fun).(*ast.Ident); ok && fid.Name == "append" {
+									if aid, ok := unparen(call.Args[0]).(*ast.Ident); ok {
+										if o := info.Uses[aid]; resliced[o] {
+											c.R.Obl(Obligation{Rule: "E6.R-param-slice", Func: fi.Name, Construct: "append to re-slice " + aid.Name, Pos: c.P.Position(call.Pos()), Discharged: false, Nontrivial: true, Ctl: fi.Ctl})
+											c.R.Find(Finding{Rule: "E6.R-param-slice", Func: fi.Name, Construct: "append into the backing array of parameter " + tainted[o], Pos: c.P.Position(call.Pos()),
+												Msg: fmt.Sprintf("`%s` appends to %s, a re-slice of the slice parameter %s: the elements are written into the caller's backing array (which may be a shared cache), outside any lock the caller holds", types.ExprString(call), aid.Name, tainted[o]), Ctl: fi.Ctl})
+										}
+									}
+								}
+							}
+						}
+					}
+					return true
+				})
+			}
+		}
+		// --- R-closure-shared
+		if fi.Lit == nil || fi.Parent == nil || !escapes(fi) {
+			continue
+		}
+		nLits++
+		outer := func(o types.Object) bool {
+			return o != nil && (o.Pos() < fi.Lit.Pos() || o.Pos() > fi.Lit.End()) && o.Parent() != nil && o.Parent() != o.Pkg().Scope() && !isPkgLevel(o)
+		}
+		alias := map[types.Object]types.Object{} // local alias -> captured slice/map variable
+		ast.Inspect(fi.Lit.Body, func(n ast.Node) bool {
+			as, ok := n.(*ast.AssignStmt)
+			if !ok || len(as.Lhs) != len(as.Rhs) {
+				return true
+			}
+			for i, l := range as.Lhs {
+				id, ok := unparen(l).(*ast.Ident)
+				if !ok {
+					continue
+				}
+				lo := info.Defs[id]
+				if lo == nil {
+					continue
+				}
+				var src *ast.Ident
+				switch r := unparen(as.Rhs[i]).(type) {
+				case *ast.Ident:
+					src = r
+				case *ast.SliceExpr:
+					src, _ = unparen(r.X).(*ast.Ident)
+				}
+				if src == nil {
+					continue
+				}
+				if o, ok := info.Uses[src].(*types.Var); ok && outer(o) {
+					switch o.Type().Underlying().(type) {
+					case *types.Slice, *types.Map:
+						alias[lo] = o
+					}
+				}
+			}
+			return true
+		})
+		bad := false
+		report := func(pos token.Pos, what string, captured types.Object) {
+			bad = true
+			c.R.Find(Finding{Rule: "E6.R-closure-shared", Func: fi.Name, Construct: what + " " + captured.Name(), Pos: c.P.Position(pos),
+				Msg: fmt.Sprintf("the function literal outlives %s and is invoked once per request; it %s `%s`, a variable of the enclosing function shared by all invocations: concurrent requests race on it and see each other's values", fi.Parent.Name, what, captured.Name()), Ctl: fi.Ctl})
+		}
+		ast.Inspect(fi.Lit.Body, func(n ast.Node) bool {
+			if lit, ok := n.(*ast.FuncLit); ok && lit != fi.Lit {
+				return false
+			}
+			as, ok := n.(*ast.AssignStmt)
+			if !ok {
+				if inc, ok := n.(*ast.IncDecStmt); ok {
+					if id, ok := unparen(inc.X).(*ast.Ident); ok {
+						if o, ok := info.Uses[id].(*types.Var); ok && outer(o) {
+							report(inc.Pos(), "increments the captured variable", o)
+						}
+					}
+				}
+				return true
+			}
+			for i, l := range as.Lhs {
+				switch lx := unparen(l).(type) {
+				case *ast.Ident:
+					if as.Tok != token.DEFINE {
+						if o, ok := info.Uses[lx].(*types.Var); ok && outer(o) {
+							report(lx.Pos(), "assigns the captured variable", o)
+						}
+					}
+				case *ast.IndexExpr:
+					if id, ok := unparen(lx.X).(*ast.Ident); ok {
+						o, _ := info.Uses[id].(*types.Var)
+						if o != nil && outer(o) {
+							report(lx.Pos(), "stores into the captured slice/map", o)
+						} else if cap, ok := alias[info.Uses[id]]; ok {
+							report(lx.Pos(), "stores through an alias into the captured slice/map", cap)
+						}
+					}
+				}
+				if i < len(as.Rhs) && len(as.Lhs) == len(as.Rhs) {
+					if call, ok := unparen(as.Rhs[i]).(*ast.CallExpr); ok && len(call.Args) > 0 {
+						if fid, ok := unparen(call.Fun).(*ast.Ident); ok && fid.Name == "append" {
+							if aid, ok := unparen(call.Args[0]).(*ast.Ident); ok {
+								ao := info.Uses[aid]
+								if o, ok := ao.(*types.Var); ok && outer(o) {
+									report(call.Pos(), "appends to the captured slice", o)
+								} else if cap, ok := alias[ao]; ok {
+									report(call.Pos(), "appends to an alias of the captured slice", cap)
+								}
+							}
+						}
+					}
+				}
+			}
+			return true
+		})
+		c.R.Obl(Obligation{Rule: "E6.R-closure-shared", Func: fi.Name, Construct: "no write to variables captured from " + fi.Parent.Name, Pos: c.P.Position(fi.Pos()), Discharged: !bad, Nontrivial: true, Ctl: fi.Ctl})
+	}
+	c.R.Extra["functions_with_slice_params_checked"] = nFuncs
+	c.R.Extra["escaping_function_literals_checked"] = nLits
+	for k := range allow {
+		if !used[k] {
+			c.R.Find(Finding{Rule: "vacuity", Func: k, Construct: "E6.R-param-slice allow-list", Pos: "-", Msg: "allow-listed store no longer exists: remove the entry"})
+		}
+	}
+}
+
+func isPkgLevel(o types.Object) bool { return o.Pkg() != nil && o.Parent() == o.Pkg().Scope() }
+
+// escapes: the literal is returned by its parent, or passed as an argument to a call (router registration, middleware).
+func escapes(fi *FuncInfo) bool {
+	if fi.Lit == nil || fi.Parent == nil || fi.Parent.Body == nil {
+		return false
+	}
+	res := false
+	ast.Inspect(fi.Parent.Body, func(n ast.Node) bool {
+		switch s := n.(type) {
+		case *ast.ReturnStmt:
+			for _, r := range s.Results {
+				if unparen(r) == ast.Expr(fi.Lit) {
+					res = true
+				}
+				// http.HandlerFunc(func...) conversions
+				if call, ok := unparen(r).(*ast.CallExpr); ok {
+					for _, a := range call.Args {
+						if unparen(a) == ast.Expr(fi.Lit) {
+							res = true
+						}
+					}
+				}
+			}
+		case *ast.GoStmt:
+			if unparen(s.Call.Fun) == ast.Expr(fi.Lit) {
+				res = true
+			}
+		}
+		return true
+	})
+	return res
+}
